@@ -151,6 +151,22 @@ pub fn check_all(run: &Run) {
                     noises.push((1u64 << a) | (1u64 << b));
                 }
             }
+            // population ladders: the k lowest, k highest and k spread irrelevant squares for every k
+            for k in 0..=irr.len() {
+                let low = irr.iter().take(k).fold(0u64, |a, q| a | (1u64 << q));
+                let high = irr.iter().rev().take(k).fold(0u64, |a, q| a | (1u64 << q));
+                let spread = (0..k).fold(0u64, |a, i| a | (1u64 << irr[(i * 37) % irr.len()]));
+                noises.extend([low, high, spread]);
+            }
+            // every triple of irrelevant squares in the pawn's neighbourhood (distance <= 2)
+            let near: Vec<u8> = irr.iter().copied().filter(|q| (file_of(*q) - f).abs() <= 2 && (rank_of(*q) - r).abs() <= 2).collect();
+            for (i, a) in near.iter().enumerate() {
+                for (j, b) in near.iter().enumerate().skip(i + 1) {
+                    for c in near.iter().skip(j + 1) {
+                        noises.push((1u64 << a) | (1u64 << b) | (1u64 << c));
+                    }
+                }
+            }
             for occ_bits in 0..16u32 {
                 let mut occ = 0u64;
                 for (i, &(ff, rr)) in rel.iter().enumerate() {
@@ -272,7 +288,7 @@ pub fn check_all(run: &Run) {
     }
 }
 
-pub const RULE: &str = "complete enumeration: between and line on all 64x64 pairs (line(a,a) is not judged: the statement defines line only for two squares); king, knight moves and rook, bishop rays on 64 squares; pawn attacks / quiets / moves on 64 squares x 2 colours x all 16 occupancies of the two push and two capture squares x noise on the irrelevant squares (none, all, two checkerboards, every single irrelevant square, every pair of irrelevant squares); rank, file, adjacent-file sets and EDGES; all 16 square stepping helpers on 64 squares; Rank/File wrapping helpers; make_square/get_rank/get_file bijection. Oracle: definitions on integer (file, rank) coordinates. distinct_nontrivial = cases whose expected answer is a non-empty set or an edge case (None / wrap)";
+pub const RULE: &str = "complete enumeration: between and line on all 64x64 pairs (line(a,a) is not judged: the statement defines line only for two squares); king, knight moves and rook, bishop rays on 64 squares; pawn attacks / quiets / moves on 64 squares x 2 colours x all 16 occupancies of the two push and two capture squares x noise on the irrelevant squares (none, all, two checkerboards, every single irrelevant square, every pair of irrelevant squares, population ladders (k lowest / highest / spread irrelevant squares for every k), every triple of irrelevant squares within distance 2 of the pawn); rank, file, adjacent-file sets and EDGES; all 16 square stepping helpers on 64 squares; Rank/File wrapping helpers; make_square/get_rank/get_file bijection. Oracle: definitions on integer (file, rank) coordinates. distinct_nontrivial = cases whose expected answer is a non-empty set or an edge case (None / wrap)";
 
 pub fn run(tier: Tier) -> i32 {
     let run = Arc::new(Run::new("C16", tier, COUNTERS));
